@@ -273,3 +273,353 @@ theorem apiDecorate_reg (ctx : Ctx) (fn : Fn) (st : St) (i s : Nat) (cb info : B
                 · rw [if_neg hc]; exact ((hg.2.2.2.2.2.2.2 j).2.2.1).symm
 
 end Dig
+
+namespace Dig
+
+theorem slotGroupLeaves_eq : ∀ (slots : List RSlot), slotGroupLeaves slots = groupLeavesL (slotResults slots)
+  | [] => rfl
+  | .err :: rest => by simp only [slotGroupLeaves, slotResults]; exact slotGroupLeaves_eq rest
+  | .val r :: rest => by simp only [slotGroupLeaves, slotResults, groupLeavesL]; rw [slotGroupLeaves_eq rest]
+
+theorem slotDecoLeaves_eq (env : TyEnv) : ∀ (slots : List RSlot), slotDecoLeaves env slots = decoLeavesL env (slotResults slots)
+  | [] => rfl
+  | .err :: rest => by simp only [slotDecoLeaves, slotResults]; exact slotDecoLeaves_eq env rest
+  | .val r :: rest => by simp only [slotDecoLeaves, slotResults, decoLeavesL]; rw [slotDecoLeaves_eq env rest]
+
+theorem slotsWF_names {slots : List RSlot} (h : SlotsWF slots) : ∀ g ∈ groupNamesL (slotResults slots), g ≠ "" := by
+  apply groupNamesL_wf
+  intro x hx
+  rw [← slotGroupLeaves_eq] at hx
+  exact h x hx
+
+theorem foldl_append_key (keys : List Key) (n : Nat) : ∀ (m : List (Key × List Nat)) (k : Key),
+    n ∈ agetL (keys.foldl (fun m k => aset m k (agetL m k ++ [n])) m) k → k ∈ keys ∨ n ∈ agetL m k := by
+  induction keys with
+  | nil => intro m k h; exact Or.inr h
+  | cons k0 ks ih =>
+    intro m k h
+    simp only [List.foldl_cons] at h
+    rcases ih _ k h with h1 | h1
+    · left; simp [h1]
+    · unfold agetL at h1
+      rw [aget_aset] at h1
+      split at h1
+      · rename_i hk; left; simp [hk]
+      · right; exact h1
+
+theorem foldl_aset_key (keys : List Key) (d : Nat) : ∀ (m : List (Key × Nat)) (k : Key) (x : Nat),
+    aget (keys.foldl (fun m k => aset m k d) m) k = some x → (k ∈ keys ∧ x = d) ∨ aget m k = some x := by
+  induction keys with
+  | nil => intro m k x h; exact Or.inr h
+  | cons k0 ks ih =>
+    intro m k x h
+    simp only [List.foldl_cons] at h
+    rcases ih _ k x h with ⟨h1, h2⟩ | h1
+    · left; exact ⟨by simp [h1], h2⟩
+    · rw [aget_aset] at h1
+      split at h1
+      · rename_i hk; injection h1 with e; left; exact ⟨by simp [hk], e.symm⟩
+      · right; exact h1
+
+/-- the plain keys a decorator registers are plain keys of its results -/
+theorem resultKeys_plain (env : TyEnv) : ∀ (rs : List Result) (keys : List Key), resultKeys env rs = .ok keys →
+    (∀ g ∈ groupNamesL rs, g ≠ "") → ∀ k ∈ keys, k.group = "" → ∃ slot decl, (false, k, slot, decl) ∈ decoLeavesL env rs := by
+  apply resultKeys.induct env (fun rs => ∀ keys, resultKeys env rs = .ok keys →
+    (∀ g ∈ groupNamesL rs, g ≠ "") → ∀ k ∈ keys, k.group = "" → ∃ slot decl, (false, k, slot, decl) ∈ decoLeavesL env rs)
+  · intro keys h _ k hk
+    simp only [resultKeys] at h; injection h with h; subst h; cases hk
+  · intro slot decl ty name as rest ks hr ih keys h hn k hk hg
+    simp only [resultKeys, hr] at h
+    injection h with h; subst h
+    rcases List.mem_cons.mp hk with rfl | hm
+    · exact ⟨slot, decl, by simp [decoLeavesL, decoLeaves]⟩
+    · obtain ⟨s', d', hmem⟩ := ih ks hr (fun g hgm => hn g (by simp only [groupNamesL, groupNames, List.nil_append]; exact hgm)) k hm hg
+      exact ⟨s', d', by simp only [decoLeavesL, List.mem_append]; exact Or.inr hmem⟩
+  · intro slot decl ty name as rest e hr _ keys h
+    simp only [resultKeys, hr] at h; cases h
+  · intro slot decl ty group as rest keys h
+    simp only [resultKeys, if_true] at h; cases h
+  · intro slot decl ty group flatten as rest hf hk2 keys h
+    have hff : flatten = false := by simpa using hf
+    simp only [resultKeys, hff, hk2, Bool.false_eq_true, if_false, if_true] at h; cases h
+  · intro slot decl ty group flatten as rest hf hk2 ks hr ih keys h hn k hk hg
+    have hff : flatten = false := by simpa using hf
+    have hkk : (kindOfId env ty != Kind.slice) = false := by simpa using hk2
+    simp only [resultKeys, hff, hkk, Bool.false_eq_true, if_false, hr] at h
+    injection h with h; subst h
+    rcases List.mem_cons.mp hk with rfl | hm
+    · exfalso
+      simp only at hg
+      exact hn group (by simp [groupNamesL, groupNames]) hg
+    · obtain ⟨s', d', hmem⟩ := ih ks hr (fun g hgm => hn g (by simp only [groupNamesL, List.mem_append]; exact Or.inr hgm)) k hm hg
+      exact ⟨s', d', by simp only [decoLeavesL, List.mem_append]; exact Or.inr hmem⟩
+  · intro slot decl ty group flatten as rest hf hk2 e hr _ keys h
+    have hff : flatten = false := by simpa using hf
+    have hkk : (kindOfId env ty != Kind.slice) = false := by simpa using hk2
+    simp only [resultKeys, hff, hkk, Bool.false_eq_true, if_false, hr] at h; cases h
+  · intro ty fs rest e he _ keys h
+    simp only [resultKeys, he] at h; cases h
+  · intro ty fs rest ks1 h1 ks2 h2 ih1 ih2 keys h hn k hk hg
+    simp only [resultKeys, h1, h2] at h
+    injection h with h; subst h
+    rcases List.mem_append.mp hk with hm | hm
+    · obtain ⟨s', d', hmem⟩ := ih1 ks1 h1 (fun g hgm => hn g (by simp only [groupNamesL, groupNames, List.mem_append]; exact Or.inl hgm)) k hm hg
+      exact ⟨s', d', by simp only [decoLeavesL, decoLeaves, List.mem_append]; exact Or.inl hmem⟩
+    · obtain ⟨s', d', hmem⟩ := ih2 ks2 h2 (fun g hgm => hn g (by simp only [groupNamesL, List.mem_append]; exact Or.inr hgm)) k hm hg
+      exact ⟨s', d', by simp only [decoLeavesL, List.mem_append]; exact Or.inr hmem⟩
+  · intro ty fs rest ks1 h1 e he _ _ keys h
+    simp only [resultKeys, h1, he] at h; cases h
+
+end Dig
+
+namespace Dig
+
+theorem apiProvide_decorators (ctx : Ctx) (fn : Fn) (st : St) (i s : Nat) (o : ProvideOpts) :
+    ∀ j, ((apiProvide ctx fn st i s o).1.scope j).decorators = (st.scope j).decorators := by
+  intro j
+  rcases apiProvide_work ctx fn st i s o with he | ⟨target, w, hw, hr | ⟨n, hr⟩⟩
+  · exact ((he.2.2.2.2.2.2.2.2 j).2.2.2.1).symm
+  · rw [hr]; exact (hw.scope j).2.2.1
+  · rw [hr, scope_modScope]
+    split
+    · exact (hw.scope j).2.2.1
+    · exact (hw.scope j).2.2.1
+
+/-! ### `RegWF`, `HomeOK`, `Cached` through the API -/
+
+theorem RegWF.provide {st : St} (ctx : Ctx) (h : RegWF ctx.env st) (hr : RegInv st) (fn : Fn) (i s : Nat) (o : ProvideOpts)
+    (hs : s < st.scopes.length) : RegWF ctx.env (apiProvide ctx fn st i s o).1 := by
+  have hdeco := apiProvide_decorators ctx fn st i s o
+  rcases apiProvide_reg2 ctx fn st i s o with he | ⟨results, keys, ha⟩
+  · -- rejected: everything that matters is as before
+    have hc : ∀ n, (apiProvide ctx fn st i s o).1.ctor n = st.ctor n := fun n => by simp [St.ctor, he.1]
+    have hd : ∀ d, (apiProvide ctx fn st i s o).1.deco d = st.deco d := fun d => by simp [St.deco, he.2.1]
+    refine ⟨fun n hn => by rw [hc]; exact h.ctorParams n (by rw [he.1]; exact hn),
+      fun d hdd => by rw [hd]; exact h.decoParams d (by rw [he.2.1]; exact hdd), ?_, ?_⟩
+    · intro S k n hn hk
+      rw [← (he.2.2.2.2.2.2.2.2 S).2.2.1] at hn
+      obtain ⟨a1, a2⟩ := h.provPlain S k n hn hk
+      exact ⟨by rw [hc]; exact a1, by unfold ctorKeys at a2 ⊢; rw [hc]; exact a2⟩
+    · intro s' k d hdd hk
+      rw [hdeco] at hdd
+      obtain ⟨a1, a2, a3⟩ := h.decoPlain s' k d hdd hk
+      exact ⟨by rw [← he.2.1]; exact a1, by rw [hd]; exact a2, by rw [hd]; exact a3⟩
+  · have ht : (if o.export_ then St.root else s) < st.scopes.length := by
+      split
+      · exact hr.nonempty
+      · exact hs
+    generalize (if o.export_ then St.root else s) = target at ha ht
+    have hd : ∀ d, (apiProvide ctx fn st i s o).1.deco d = st.deco d := fun d => by simp [St.deco, ha.decos]
+    obtain ⟨X, hX, hvk⟩ := ha.chk
+    have hnew : ctorKeys (apiProvide ctx fn st i s o).1 st.ctors.length = singleKeysL (slotResults results) := by
+      unfold ctorKeys singleKeysL
+      rw [ha.node.1, slotLeaves_eq]
+    refine ⟨?_, fun d hdd => by rw [hd]; exact h.decoParams d (by rw [← ha.decos]; exact hdd), ?_, ?_⟩
+    · intro n hn
+      rw [ha.len] at hn
+      by_cases hlt : n < st.ctors.length
+      · rw [ha.pre n hlt]; exact h.ctorParams n hlt
+      · have : n = st.ctors.length := by omega
+        subst this; exact ha.wfp
+    · intro S k n hn hk
+      have hold : n ∈ agetL (st.scope S).providers k → ((apiProvide ctx fn st i s o).1.ctor n).s = S ∧
+          k ∈ ctorKeys (apiProvide ctx fn st i s o).1 n := by
+        intro h0
+        have hb := hr.bound S k n h0
+        obtain ⟨a1, a2⟩ := h.provPlain S k n h0 hk
+        exact ⟨by rw [ha.pre n hb]; exact a1, by unfold ctorKeys at a2 ⊢; rw [ha.pre n hb]; exact a2⟩
+      by_cases hS : S = target
+      · subst hS
+        rw [ha.prov ht] at hn
+        by_cases hnew' : n = st.ctors.length
+        · subst hnew'
+          rcases foldl_append_key _ _ _ k hn with h1 | h1
+          · rcases visitKeys_sub X _ _ _ hvk k h1 with h2 | h2 | h2
+            · cases h2
+            · exact ⟨ha.node.2, by rw [hnew]; exact h2⟩
+            · exact absurd hk (slotsWF_names ha.wfr _ h2)
+          · exact absurd (hr.bound _ k _ h1) (Nat.lt_irrefl _)
+        · rcases foldl_aset_append_mem _ _ _ k n hn with h1 | h1
+          · exact absurd h1 hnew'
+          · exact hold h1
+      · rw [ha.others S hS] at hn
+        exact hold hn
+    · intro s' k d hdd hk
+      rw [hdeco] at hdd
+      obtain ⟨a1, a2, a3⟩ := h.decoPlain s' k d hdd hk
+      exact ⟨by rw [ha.decos]; exact a1, by rw [hd]; exact a2, by rw [hd]; exact a3⟩
+
+theorem RegWF.decorate {st : St} (ctx : Ctx) (h : RegWF ctx.env st) (fn : Fn) (i s : Nat) (cb info : Bool) :
+    RegWF ctx.env (apiDecorate ctx fn st i s cb info).1 := by
+  rcases apiDecorate_reg ctx fn st i s cb info with he | ha
+  · rw [he]; exact h
+  · have hc : ∀ n, (apiDecorate ctx fn st i s cb info).1.ctor n = st.ctor n := fun n => by simp [St.ctor, ha.ctors]
+    obtain ⟨keys, hk, hwf, hdec⟩ := ha.keys
+    refine ⟨fun n hn => by rw [hc]; exact h.ctorParams n (by rw [← ha.ctors]; exact hn), ?_, ?_, ?_⟩
+    · intro d hd
+      rw [ha.len] at hd
+      by_cases hlt : d < st.decos.length
+      · rw [ha.pre d hlt]; exact h.decoParams d hlt
+      · have : d = st.decos.length := by omega
+        subst this; exact ha.node.2.2
+    · intro S k n hn hkk
+      rw [ha.providers] at hn
+      obtain ⟨a1, a2⟩ := h.provPlain S k n hn hkk
+      exact ⟨by rw [hc]; exact a1, by unfold ctorKeys at a2 ⊢; rw [hc]; exact a2⟩
+    · intro s' k d hdd hkk
+      rw [hdec] at hdd
+      have hold : aget (st.scope s').decorators k = some d → d < (apiDecorate ctx fn st i s cb info).1.decos.length ∧
+          ((apiDecorate ctx fn st i s cb info).1.deco d).s = s' ∧
+          ∃ slot decl, (false, k, slot, decl) ∈ slotDecoLeaves ctx.env ((apiDecorate ctx fn st i s cb info).1.deco d).results := by
+        intro h0
+        obtain ⟨a1, a2, a3⟩ := h.decoPlain s' k d h0 hkk
+        exact ⟨by rw [ha.len]; omega, by rw [ha.pre d a1]; exact a2, by rw [ha.pre d a1]; exact a3⟩
+      split at hdd
+      · rename_i hc2
+        rcases foldl_aset_key _ _ _ k d hdd with ⟨h1, h2⟩ | h1
+        · subst h2
+          obtain ⟨slot, decl, hm⟩ := resultKeys_plain ctx.env _ keys hk (slotsWF_names hwf) k h1 hkk
+          exact ⟨by rw [ha.len]; omega, by rw [ha.node.1]; exact hc2.1, slot, decl, by rw [slotDecoLeaves_eq]; exact hm⟩
+        · exact hold h1
+      · exact hold hdd
+
+end Dig
+
+namespace Dig
+
+/-- what was built in `b` was built in `a`, with the same description; the two caches read by `Cached` are the same -/
+theorem Cached.transfer {env : TyEnv} {a b : St} (h : Cached env a)
+    (hc : ∀ n, n < b.ctors.length → (b.ctor n).called = true →
+      n < a.ctors.length ∧ (a.ctor n).called = true ∧ (b.ctor n).results = (a.ctor n).results ∧ (b.ctor n).s = (a.ctor n).s)
+    (hd : ∀ d, d < b.decos.length → (b.deco d).state = .called →
+      d < a.decos.length ∧ (a.deco d).state = .called ∧ (b.deco d).results = (a.deco d).results ∧ (b.deco d).s = (a.deco d).s)
+    (hs : ∀ j, (b.scope j).values = (a.scope j).values ∧ (b.scope j).decoratedValues = (a.scope j).decoratedValues) :
+    Cached env b where
+  ctor n hn hcl k hk := by
+    obtain ⟨a1, a2, a3, a4⟩ := hc n hn hcl
+    unfold ctorKeys at hk
+    rw [a3] at hk
+    rw [a4, (hs _).1]
+    exact h.ctor n a1 a2 k hk
+  deco d hdl hst k slot decl hm := by
+    obtain ⟨a1, a2, a3, a4⟩ := hd d hdl hst
+    rw [a3] at hm
+    rw [a4, (hs _).2]
+    exact h.deco d a1 a2 k slot decl hm
+
+theorem Cached.same {env : TyEnv} {a b : St} (h : Cached env a) (hc : b.ctors = a.ctors) (hd : b.decos = a.decos)
+    (hs : ∀ j, (b.scope j).values = (a.scope j).values ∧ (b.scope j).decoratedValues = (a.scope j).decoratedValues) :
+    Cached env b :=
+  h.transfer (fun n hn hcl => by
+      have : b.ctor n = a.ctor n := by simp [St.ctor, hc]
+      rw [this] at hcl ⊢; exact ⟨by rw [← hc]; exact hn, hcl, rfl, rfl⟩)
+    (fun d hdl hst => by
+      have : b.deco d = a.deco d := by simp [St.deco, hd]
+      rw [this] at hst ⊢; exact ⟨by rw [← hd]; exact hdl, hst, rfl, rfl⟩) hs
+
+theorem HomeOK.same {a b : St} (h : HomeOK a) (hc : b.ctors = a.ctors) (hd : b.decos = a.decos)
+    (hl : a.scopes.length ≤ b.scopes.length) : HomeOK b where
+  ctor n hn := by
+    have : b.ctor n = a.ctor n := by simp [St.ctor, hc]
+    rw [this]; exact Nat.lt_of_lt_of_le (h.ctor n (by rw [← hc]; exact hn)) hl
+  deco d hdl := by
+    have : b.deco d = a.deco d := by simp [St.deco, hd]
+    rw [this]; exact Nat.lt_of_lt_of_le (h.deco d (by rw [← hd]; exact hdl)) hl
+
+theorem HomeOK.init : HomeOK ({} : St) := ⟨fun n hn => by simp at hn, fun d hd => by simp at hd⟩
+
+theorem RegWF.init (env : TyEnv) : RegWF env ({} : St) where
+  ctorParams n hn := by simp at hn
+  decoParams d hd := by simp at hd
+  provPlain S k n hn := by cases S <;> simp [St.scope, agetL, aget] at hn
+  decoPlain s k d hd := by cases s <;> simp [St.scope, aget] at hd
+
+/-- the static and dynamic facts the resolver relies on -/
+structure NBInv (env : TyEnv) (st : St) : Prop where
+  h : HInv st
+  reg : RegInv st
+  wf : RegWF env st
+  home : HomeOK st
+  cached : Cached env st
+
+theorem NBInv.init (env : TyEnv) : NBInv env ({} : St) :=
+  ⟨HInv.init, RegInv.init, RegWF.init env, HomeOK.init, Cached.init env⟩
+
+theorem NBInv.ei {env : TyEnv} {st : St} (h : NBInv env st) : EI env st.ctors.length st.decos.length st :=
+  ⟨⟨h.h.valid, rfl, rfl⟩, h.home, h.wf, h.cached⟩
+
+theorem NBInv.provide {st : St} (ctx : Ctx) (h : NBInv ctx.env st) (fn : Fn) (i s : Nat) (o : ProvideOpts)
+    (hs : s < st.scopes.length) : NBInv ctx.env (apiProvide ctx fn st i s o).1 := by
+  refine ⟨h.h.provide ctx fn i s o, h.reg.provide ctx fn i s o hs, h.wf.provide ctx h.reg fn i s o hs, ?_, ?_⟩
+  · rcases apiProvide_reg2 ctx fn st i s o with he | ⟨results, keys, ha⟩
+    · exact h.home.same he.1.symm he.2.1.symm (by rw [he.2.2.2.2.2.2.2.1]; exact Nat.le_refl _)
+    · have ht : (if o.export_ then St.root else s) < st.scopes.length := by
+        split
+        · exact h.reg.nonempty
+        · exact hs
+      refine ⟨?_, ?_⟩
+      · intro n hn
+        rw [ha.len] at hn
+        rw [ha.scopesLen]
+        by_cases hlt : n < st.ctors.length
+        · rw [ha.pre n hlt]; exact h.home.ctor n hlt
+        · have : n = st.ctors.length := by omega
+          subst this; rw [ha.node.2]; exact ht
+      · intro d hd
+        have : (apiProvide ctx fn st i s o).1.deco d = st.deco d := by simp [St.deco, ha.decos]
+        rw [this, ha.scopesLen]
+        exact h.home.deco d (by rw [← ha.decos]; exact hd)
+  · have hcs := cacheSame_apiProvide ctx fn st i s o
+    have hsv : ∀ j, ((apiProvide ctx fn st i s o).1.scope j).values = (st.scope j).values ∧
+        ((apiProvide ctx fn st i s o).1.scope j).decoratedValues = (st.scope j).decoratedValues :=
+      fun j => ⟨(hcs.2.2 j).1, (hcs.2.2 j).2.1⟩
+    rcases apiProvide_reg2 ctx fn st i s o with he | ⟨results, keys, ha⟩
+    · exact h.cached.same he.1.symm he.2.1.symm hsv
+    · refine h.cached.transfer ?_ ?_ hsv
+      · intro n hn hcl
+        rw [ha.len] at hn
+        by_cases hlt : n < st.ctors.length
+        · rw [ha.pre n hlt] at hcl ⊢; exact ⟨hlt, hcl, rfl, rfl⟩
+        · have : n = st.ctors.length := by omega
+          subst this; rw [ha.fresh] at hcl; cases hcl
+      · intro d hd hst
+        have : (apiProvide ctx fn st i s o).1.deco d = st.deco d := by simp [St.deco, ha.decos]
+        rw [this] at hst ⊢
+        exact ⟨by rw [← ha.decos]; exact hd, hst, rfl, rfl⟩
+
+theorem NBInv.decorate {st : St} (ctx : Ctx) (h : NBInv ctx.env st) (fn : Fn) (i s : Nat) (cb info : Bool)
+    (hs : s < st.scopes.length) : NBInv ctx.env (apiDecorate ctx fn st i s cb info).1 := by
+  refine ⟨h.h.decorate ctx fn i s cb info, h.reg.decorate ctx fn i s cb info, h.wf.decorate ctx fn i s cb info, ?_, ?_⟩
+  · rcases apiDecorate_reg ctx fn st i s cb info with he | ha
+    · rw [he]; exact h.home
+    · refine ⟨?_, ?_⟩
+      · intro n hn
+        have : (apiDecorate ctx fn st i s cb info).1.ctor n = st.ctor n := by simp [St.ctor, ha.ctors]
+        rw [this, ha.scopesLen]
+        exact h.home.ctor n (by rw [← ha.ctors]; exact hn)
+      · intro d hd
+        rw [ha.len] at hd
+        rw [ha.scopesLen]
+        by_cases hlt : d < st.decos.length
+        · rw [ha.pre d hlt]; exact h.home.deco d hlt
+        · have : d = st.decos.length := by omega
+          subst this; rw [ha.node.1]; exact hs
+  · have hcs := cacheSame_apiDecorate ctx fn st i s cb info
+    have hsv : ∀ j, ((apiDecorate ctx fn st i s cb info).1.scope j).values = (st.scope j).values ∧
+        ((apiDecorate ctx fn st i s cb info).1.scope j).decoratedValues = (st.scope j).decoratedValues :=
+      fun j => ⟨(hcs.2.2 j).1, (hcs.2.2 j).2.1⟩
+    rcases apiDecorate_reg ctx fn st i s cb info with he | ha
+    · rw [he]; exact h.cached
+    · refine h.cached.transfer ?_ ?_ hsv
+      · intro n hn hcl
+        have : (apiDecorate ctx fn st i s cb info).1.ctor n = st.ctor n := by simp [St.ctor, ha.ctors]
+        rw [this] at hcl ⊢
+        exact ⟨by rw [← ha.ctors]; exact hn, hcl, rfl, rfl⟩
+      · intro d hd hst
+        rw [ha.len] at hd
+        by_cases hlt : d < st.decos.length
+        · rw [ha.pre d hlt] at hst ⊢; exact ⟨hlt, hst, rfl, rfl⟩
+        · have : d = st.decos.length := by omega
+          subst this; rw [ha.node.2.1] at hst; cases hst
+
+end Dig
